@@ -4,6 +4,12 @@ NOTES = ("All checks: bin/check <ID> --tier quick|thorough. Exit 0 held / 1 VIOL
          "Specification in spec/, harness in harness/, known findings in known_findings.jsonl; see DESIGN.md.")
 NOT_APPLICABLE = {}
 CHECKS = {
+    "C13": {
+        "level": "model_checking",
+        "technique": "TLA+ ImportSearch spec (priority classes per location, relative location then load paths, import-only variants, index directories, extension appended); TLC checks resolution soundness/decoy inertness on the model and enumerates virtual layouts; grass runs each over a recording in-memory Fs in a working directory seeded with real-disk decoys; TLC trace machine Trace_Imports judges every Fs call (confinement) and the loaded file/syntax/error",
+        "text": "Exhaustive over URL shapes x @import/@use/@forward x importer locations (incl. two searches for one URL in one compilation) x load-path lists x all unambiguous file subsets up to the bound. Each compilation's complete Fs call log must stay inside the specification's candidate set and the marker rule that reaches the output must belong to the file the specification resolves (parsed with the syntax of its extension), or the error must be located at the import.",
+        "note": "Ambiguous layouts excluded as the property says; plain-CSS classification checked for *.css @import only (url()/http forms are covered through the corpus in C05/C18); CSS-vs-SCSS parsing of .css files is not distinguishable by the marker (only sass vs non-sass is).",
+    },
     "C19": {
         "level": "model_checking",
         "technique": "TLA+ Diag spec (location bounds, rendering prefix, delivery-order rule with the permitted de-duplication) judging one event per compilation in TLC (Trace_Diag); events from MC_Eval 'diag' programs with expectations computed by Eval.tla (file, line, message) x quiet x unicode x CRLF/comment-padded variants, and from failing corpus inputs and their seeded mutations",
